@@ -261,13 +261,27 @@ def m2d_case(draw, tier):
             "interp": draw(st.sampled_from(["flat", "cubic"])),
             # lowest valid value: default 0, or a negative one (all inputs
             # are non-negative, nothing becomes missing)
-            "minthr": draw(st.sampled_from([None, None, -5.0, -1e-9]))}
+            "minthr": draw(st.sampled_from([None, None, -5.0, -1e-9])),
+            # the month-start index built by date_range (it carries a freq)
+            # or stamp by stamp (no freq), in s / us / ns resolution
+            "index": draw(st.sampled_from(["date_range", "date_range",
+                                           "stamps", "stamps-ns",
+                                           "stamps-s"]))}
 
 
 def m2d_oracle(case):
     start = pd.Timestamp(year=case["year"], month=case["month"], day=1)
     nm = len(case["vals"])
     index = pd.date_range(start, periods=nm, freq="MS")
+    how = case.get("index", "date_range")
+    if how != "date_range":
+        index = pd.DatetimeIndex([pd.Timestamp(t) for t in index])
+        assert index.freq is None
+        if how == "stamps-ns" and 1680 < case["year"] and \
+                case["year"] + nm // 12 < 2260:
+            index = index.as_unit("ns")
+        elif how == "stamps-s":
+            index = index.as_unit("s")
     sem = pd.Series(np.array(case["vals"], dtype=np.float64), index=index)
     kw = {} if case.get("minthr") is None \
         else {"minthreshold": case["minthr"]}
@@ -303,7 +317,8 @@ def m2d_oracle(case):
         raise Violation(
             f"monthly2daily({case['interp']}) month {i}: daily values sum "
             f"to {sums[i]!r}, monthly input {exp[i]!r}")
-    return {"nt": leapfeb, "labels": [f"interp:{case['interp']}"]
+    return {"nt": leapfeb, "labels": [f"interp:{case['interp']}",
+                                      f"index:{how}"]
             + (["leap-february"] if leapfeb else [])}
 
 
